@@ -25,10 +25,11 @@ CLAIMS = {
         ref='DESIGN.md §4 C02'),
     'C03': dict(
         text='Proof of the structural half on the simulator: every operation preserves size == 2^n and the flag-vector invariant; allocateQubit doubles the vector, '
-             'keeps every existing amplitude, zero-fills the new half; collapse/reset write the normalised branch. ',
+             'keeps every existing amplitude, zero-fills the new half; collapse/reset write the normalised branch. Evaluator side (unit QBK): allocateTrackedQubit returns an in-range handle that differs from every live handle (ghost live handle) and is no longer on the free list; '
+             'releaseQubit keeps the free list duplicate-free and in range whatever is released (no precondition on membership), so two declarations are never handed one simulator qubit. ',
         note=TB + 'Unit norm and finiteness are consequences in real arithmetic of the proved index-level contracts (unitary 2x2 update, permutation, division by sqrt(p)); '
-             'machine arithmetic is treated as mathematical there and checked only by the native oracle (|norm^2 - 1| < 1e-9 on the sweep). Handle distinctness '
-             '(evaluator free list) is not under contract yet.',
+             'machine arithmetic is treated as mathematical there and checked only by the native oracle (|norm^2 - 1| < 1e-9 on the sweep). That no reachable handle still holds a released index '
+             '(whole-heap reasoning over object fields) is a caller obligation of releaseQubit and NOT verified; the simulator is seen by QBK through the contracts proved in SIM (ghost flag array).',
         ref='DESIGN.md §4 C03'),
     'C04': dict(
         text='Proof that reset samples the target as a measurement would (one draw, branch b = r < p1), writes old[gk | b*bit]/sqrt(p_b) into the target=0 half and exact 0 into the '
@@ -45,7 +46,8 @@ CLAIMS = {
     'C06': dict(
         text='Proof of the simulator-side state machine: ensureQubitActive throws Runtime iff the index is out of range or flagged; every gate, cx and measure refuse exactly then and '
              'leave state and log untouched; measure sets the flag of q only; reset and allocateQubit clear it; other flags are kept (ghost index).',
-        note=TB + 'The evaluator-side flags, their pairing with the simulator flags, and the access paths (variable, element, parameter, field) are not under contract yet.',
+        note=TB + 'Evaluator side (unit QBK): ensureQubitActive raises a Runtime error located at the given line/column iff the handle is out of range or flagged; markMeasured/unmarkMeasured/releaseQubit/allocateTrackedQubit move the '
+             'flag as the state machine says and keep the other entries. NOT verified: that every built-in gate / measure site calls ensureQubitActive before the simulator, the pairing of evaluator and simulator flags across eval/exec, and the access paths.',
         ref='DESIGN.md §4 C06'),
     'C13': dict(
         text='Proof for the lexer (every member function): every loop terminates (decreases clause on bytes left), every source access is in bounds, every cursor move is '
